@@ -436,8 +436,16 @@ impl Ctx {
             }
         }
         let mut viol = 0;
+        let mut harness_errors = 0;
         let failures = self.stats.failures.clone();
         for f in &failures {
+            if f.rule == "harness" {
+                // the harness could not drive the code (e.g. it cannot construct its fixtures any
+                // more): inconclusive, never a violation
+                println!("INCONCLUSIVE property={} harness error: {}", self.property, f.detail.chars().take(400).collect::<String>());
+                harness_errors += 1;
+                continue;
+            }
             let path = self.write_replay(f);
             println!("VIOLATION property={} replay={}", self.property, path);
             println!("  rule={} fingerprint={}", f.rule, f.fingerprint);
@@ -486,6 +494,8 @@ impl Ctx {
         );
         if viol > 0 {
             1
+        } else if harness_errors > 0 {
+            2
         } else {
             0
         }
@@ -725,6 +735,27 @@ pub fn dispatch(args: &Args, table: Vec<Prop>) -> i32 {
             let kf = ctx.kf.clone();
             match catch(|| (p.replay)(&case, &kf)) {
                 Ok(Ok(())) => {}
+                Ok(Err(f)) => ctx.stats.fail(f),
+                Err(pm) => ctx.stats.fail(Failure::panic(case.clone(), &pm)),
+            }
+        }
+    }
+    // coverage-guided stage (libFuzzer), run by ./check before this binary in the thorough tier of
+    // some properties: its statistics go into the evidence, a saved crashing input is re-judged here
+    // by the in-process oracle (strict) so that it gets a normal replay file and VIOLATION line
+    if let Ok(j) = std::env::var("VERIF_FUZZ_JSON") {
+        if let Ok(v) = serde_json::from_str::<Value>(&j) {
+            ctx.stats.evaluations += v["executed_units"].as_u64().unwrap_or(0);
+            ctx.stats.class_n("libfuzzer-executions", v["executed_units"].as_u64().unwrap_or(0));
+            ctx.extra.insert("libfuzzer".into(), v);
+        }
+    }
+    if let Ok(path) = std::env::var("VERIF_FUZZ_CRASH") {
+        if let Ok(bytes) = std::fs::read(&path) {
+            let case = json!({"kind": "fuzz_raw", "data": hex(&bytes)});
+            let none = KnownFindings::default();
+            match catch(|| (p.replay)(&case, &none)) {
+                Ok(Ok(())) => ctx.stats.notes.push(format!("libFuzzer artifact {path} did not reproduce with the in-process oracle")),
                 Ok(Err(f)) => ctx.stats.fail(f),
                 Err(pm) => ctx.stats.fail(Failure::panic(case.clone(), &pm)),
             }
